@@ -54,7 +54,7 @@ def gen_definition(rng, idx: int, spk: dict) -> dict:
         start = rng.choice([0, 4, 8, 12, 2, 5.5, 7.9, rng.randrange(0, total - 12)])
         # the API snaps the start to the nearest segment of the timing reference (up to +2 s)
         remaining = total - start - (0 if start % 4 == 0 else 2)
-        duration = rng.choice([8, 12, 16, 20, 9.5, 13, remaining, min(remaining, rng.randrange(8, 33))])
+        duration = rng.choice([8, 12, 16, 20, 9.5, 13, 16.2, 14.2, 10.7, remaining, min(remaining, rng.randrange(8, 33))])
         duration = min(duration, remaining)
         if duration < 8:
             start, duration = 0, 16
